@@ -311,11 +311,11 @@ fn comments(toks: &[Tok]) -> Vec<String> {
 // ------------------------------------------------------------------------------------------------
 // programs
 
-const COMMENT_KINDS: [&str; 7] = ["block", "line", "mblock", "eol-line", "eol-block", "same-line", "same-line-block"];
+const COMMENT_KINDS: [&str; 9] = ["block", "line", "mblock", "eol-line", "eol-block", "same-line", "same-line-block", "line-colon", "eol-line-colon"];
 /// first / second comment text of each kind (distinct texts so that order is observable).
 /// Kinds 0-2 are inserted directly before the terminal (after its separator); the `eol` kinds
 /// replace a line-break separator, i.e. the comment ends the previous line.
-const COMMENT_TEXT: [[&str; 2]; 7] = [
+const COMMENT_TEXT: [[&str; 2]; 9] = [
     ["/* c1 */", "/* d1 */"],
     ["// c2\n", "// d2\n"],
     ["/* a\n   b */", "/* e\n   f */"],
@@ -324,11 +324,19 @@ const COMMENT_TEXT: [[&str; 2]; 7] = [
     // the statement shares the previous statement's line (no comment / a block comment in between)
     [" ", " "],
     [" /* c5 */ ", " /* d5 */ "],
+    // comment text that looks like the end of a label / the start of a block
+    ["// c6:\n", "// d6 {\n"],
+    [" // c7:\n", " // d7 {\n"],
 ];
+
+/// kinds that replace the separator before the terminal (the others are inserted after it)
+fn replaces_separator(kind: usize) -> bool {
+    matches!(kind, 3 | 4 | 5 | 6 | 8)
+}
 
 fn comment_dev(slot: (usize, usize), which: usize) -> Dev {
     let text = COMMENT_TEXT[slot.1][which].to_string();
-    if slot.1 >= 3 {
+    if replaces_separator(slot.1) {
         Dev::Sep(slot.0, text)
     } else {
         Dev::Insert(slot.0, text)
@@ -400,9 +408,11 @@ fn comment_slots(r: &Rendered) -> Vec<(usize, usize)> {
                 for k in 0..3 {
                     out.push((i, k));
                 }
+                out.push((i, 7));
                 if t.sep == "\n" {
                     out.push((i, 3));
                     out.push((i, 4));
+                    out.push((i, 8));
                 }
                 if r.joinable(i) {
                     out.push((i, 5));
@@ -960,9 +970,24 @@ fn projects(pool: &[String], n: usize, full: &[Cfg]) -> Vec<Project> {
     let mut out = vec![];
     let len = pool.len();
     for i in 0..n {
-        let x = pool[(i * 131 + 7) % len].clone();
-        let y = pool[(i * 173 + 11) % len].clone();
-        let z = pool[(i * 197 + 13) % len].clone();
+        // (files whose formatted text is shorter than the source: deep indentation, runs of empty lines)
+        let bloat = |t: &str| -> String {
+            let mut b: String = t.lines().map(|l| format!("{:64}{}", "", l)).collect::<Vec<_>>().join("\n\n\n\n");
+            b.push_str("\n\n\n\n");
+            b
+        };
+        let mut x = pool[(i * 131 + 7) % len].clone();
+        let mut y = pool[(i * 173 + 11) % len].clone();
+        let mut z = pool[(i * 197 + 13) % len].clone();
+        match (i / 2) % 3 {
+            1 => y = bloat(&y),
+            2 => {
+                x = bloat(&x);
+                y = bloat(&y);
+                z = bloat(&z);
+            }
+            _ => {}
+        }
         let (shape, mut files): (&'static str, Vec<(String, String)>) = match i % 4 {
             0 => ("single", vec![("main.asm".into(), x)]),
             1 => (
@@ -1669,7 +1694,7 @@ pub fn run(ctx: &Ctx, replay: Option<&Value>) -> i32 {
                     if slots[b].0 - slots[a].0 > 6 {
                         break;
                     }
-                    if slots[a].0 == slots[b].0 && slots[a].1 >= 3 && slots[b].1 >= 3 {
+                    if slots[a].0 == slots[b].0 && replaces_separator(slots[a].1) && replaces_separator(slots[b].1) {
                         // both would replace the same separator
                         continue;
                     }
